@@ -12,5 +12,8 @@ def tblNsEnv : NsEnv where
   xsiSchemaLocation := Tables.qnXsiSchemaLocation
   xsiNoNsSchemaLocation := Tables.qnXsiNoNamespaceSchemaLocation
   saxXmlNs := Tables.saxXmlNamespace
+  xmlUri := Tables.nsXmlUri
+  xmlPrefix := Tables.nsXmlPrefix
+  isNcnamePy := ncnamePyApprox
 
 end Xs.Ns
